@@ -3,3 +3,5 @@ export GOFLAGS=-mod=mod GOPROXY=off GOSUMDB=off GOTOOLCHAIN=local
 export VERIF_ROOT="${VERIF_ROOT:-$(cd "$(dirname "${BASH_SOURCE[0]}")/.." && pwd)}"
 export VERIF_BUILD="${VERIF_BUILD:-$VERIF_ROOT/.build}"
 mkdir -p "$VERIF_BUILD"
+# the tree under test (registered commands always use /repo; the variable exists for experiments against a scratch copy)
+export VERIF_REPO="${VERIF_REPO:-/repo}"
